@@ -180,7 +180,9 @@ def run_groups(pid, groups, tier, repo, scratch, seed):
                     rec['reason'] = 'no result parsed (rc=%s): %s' % (rc, text[-300:])
             else:
                 rec.update(r)
-                if r['status'] == 'failed' and r['unwind_fail'] and all('unwinding' in c for c in r['failed_checks']):
+                if r['status'] == 'failed' and r['unwind_fail'] and h.get('unwind_is_obligation'):
+                    rec['failed_checks'] = ['C07: the loop did not terminate within the work bound (unwinding assertion): ' + '; '.join(r['failed_checks'])[:300]]
+                elif r['status'] == 'failed' and r['unwind_fail'] and all('unwinding' in c for c in r['failed_checks']):
                     rec['status'] = 'inconclusive'
                     rec['reason'] = 'unwinding assertion failed (bound too small)'
                 if r['status'] == 'ok' and r['covers'] and r['covers'][0] < r['covers'][1]:
